@@ -31,7 +31,7 @@ func isBankMutatorCall(c ssa.CallInstruction) bool {
 }
 
 func checkC01(c *Check) {
-	c.Explanation = "Ledger discipline behind conservation, decided for all call sites and all CFG paths: (R1) who-may-call — bank mutators are called only in x/escrow/keeper with the constant escrow module name; (R2) double entry at each of the send sites — the amount sent is the same SSA value as the amount credited/zeroed in the record, the record write sits on the ok-edge of the send and nothing is written before it; (R3) settlement helpers are pure and the settle core reaches the bank only through the payment withdraw helper; (R4) the four balance fields are stored only inside x/escrow/keeper and Save* is reachable only from genesis; (R5) the escrow module account has no mint/burn permission and is blocked from receiving external transfers."
+	c.Explanation = "Ledger discipline behind conservation, decided for all call sites and all CFG paths: (R1) who-may-call — bank mutators are called only in x/escrow/keeper with the constant escrow module name; (R2) double entry at each of the send sites — the amount sent is the same SSA value as the amount credited/zeroed in the record, the record write sits on the ok-edge of the send and nothing is written before it; (R3) settlement helpers are pure and the settle core reaches the bank only through the payment withdraw helper; (R4) the four balance fields are stored only inside x/escrow/keeper and Save* is reachable only from genesis; (R5) the escrow module account has no mint/burn permission and is blocked from receiving external transfers; (R6) a record paid out or persisted after a settlement was loaded after that settlement (a stale copy written back would destroy the credit just booked)."
 	c.NotDecided = "the numeric identity sum(recorded balances) = module balance over histories (arithmetic of the settle helpers)"
 	l := c.L
 	modName := l.constVal("x/escrow/types", "ModuleName").ExactString()
@@ -169,6 +169,18 @@ func checkC01(c *Check) {
 			}
 		}
 	}
+
+	// ---- R6 records written back after a settlement were loaded after it
+	mut := mutatingFuncs(l, kfuncs)
+	for _, name := range []string{"PaymentCreate", "PaymentWithdraw", "PaymentClose", "AccountClose"} {
+		fn := l.Func("x/escrow/keeper", "keeper", name)
+		scs := settleCallsIn(l, fn, settle)
+		c.Ob("R6", name+": settles", fn.Pos(), len(scs) > 0, "no settlement before acting")
+		if len(scs) > 0 {
+			c.staleRecordRule("R6", fn, scs[0], mut)
+		}
+	}
+	c.Floor("R6", 8)
 
 	// ---- R5 configuration
 	c.macPerms(modName)
